@@ -49,7 +49,13 @@ def run_property(prop: str, repo_root: str, tier: str, seed: int, *, write=True,
         repo = Repo(repo_root)
         ctx = Ctx(repo, prop, tier=tier, seed=seed)
         rule_errors = []
-        for rid, func, floor in mod.RULES:
+        rules = list(mod.RULES)
+        try:
+            from rules._pitfalls_rule import rule as _pitfalls
+            rules.append((f"{prop}-RP", _pitfalls, 4))
+        except ImportError:
+            pass
+        for rid, func, floor in rules:
             # a rule that cannot decide (AnalysisError) does not stop the other rules: a violation established independently by
             # another rule is still a violation; only when nothing is violated does the undecided rule make the run exit 2
             try:
@@ -120,7 +126,7 @@ def run_property(prop: str, repo_root: str, tier: str, seed: int, *, write=True,
         out.append(f"  rule={ob.rule} at {ob.loc}: {ob.construct}")
         out.append(f"  {ob.msg}")
     if write:
-        write_evidence(prop, tier, seed, ctx, getattr(mod, "EXPLANATION", ""), getattr(mod, "RULE_TEXT", ""),
+        write_evidence(prop, tier, seed, ctx, getattr(mod, "EXPLANATION", "") + f"  Additionally {prop}-RP: shared pitfall lints (shared mutable fill, stale loop carry, mutable default argument, late-binding closure) over the anchored files.", getattr(mod, "RULE_TEXT", ""),
                        COMMON_ASSUMPTIONS + list(getattr(mod, "ASSUMPTIONS", [])), wall,
                        violations if error is None else [], known_hits, extra=extra, error=error,
                        out_dir=evidence_dir)
